@@ -54,6 +54,13 @@ HW_DIRECTED = [
     "hw.bindfan platform=hwmon7 index=1 rpm=0 pwm=0",
     "hw.bindfan platform=it87 index=1 rpm=0 pwm=0",
     "hw.bindfan platform=it8620-isa index=1 rpm=0 pwm=0",
+    "#case hw directed: a chip directory with two fan inputs and ONE pwm file: every entry gets the controls of ITS channel",
+    "hw.tree spec=thinkpad|1|0|0|@R9|F1:fan1,F1:fan2",
+    "hw.files chip=@R9 files=fan1_input+fan2_input+pwm1+pwm1_enable",
+    "hw.bindfan platform=thinkpad index=2 rpm=0 pwm=0",
+    "hw.bindfan platform=thinkpad index=0 rpm=2 pwm=0",
+    "hw.bindfan platform=thinkpad index=1 rpm=0 pwm=3",
+    "hw.bindfan platform=thinkpad index=1 rpm=0 pwm=0",
     "#case hw directed: several fan entries in one initializeFans call (independent entries; first failure aborts)",
     "hw.tree spec=nct6798|1|0|656|/nx/c17/hwmon4|F1:fan2,F1:fan5,T1:temp1;coretemp|1|0|0|/nx/c17/hwmon0|T1:temp1,F1:fan1",
     "hw.bindfans sels=nct6798:1:0:0;coretemp:0:1:3",
@@ -269,7 +276,19 @@ def fan_sel_hits(chips, op):
 
 def gen_hwmon_case(r):
     chips = gen_tree(r)
-    ops = ["#case hw", f"hw.tree spec={tree_tok(chips)}"]
+    files_ops = []
+    if r.chance(0.35):
+        # some chips live in REAL directories holding their fan inputs and PWM controls for a SUBSET of the channels (often a
+        # single pwm file): an entry is bound to the controls of the channel it names whatever else the directory holds
+        # (seed C17h: "the only pwm file there is" was taken instead of the missing one)
+        named = [c for c in chips if c["prefix"]]
+        for k, c in enumerate(r.sample(named, min(len(named), 2))):
+            c["path"] = f"@R{k}"
+            chans = [ch for ch in fan_channels(c) if 0 < ch < 100]
+            have = r.sample(chans, 1) if chans and r.chance(0.6) else [ch for ch in chans if r.chance(0.5)]
+            fl = [f"fan{ch}_input" for ch in chans] + [f"pwm{ch}" for ch in have] + [f"pwm{ch}_enable" for ch in have]
+            files_ops.append(f"hw.files chip=@R{k} files={'+'.join(fl)}")
+    ops = ["#case hw", f"hw.tree spec={tree_tok(chips)}"] + files_ops
     sels = []
     for _ in range(r.range(5, 9)):
         sels.append(gen_fan_sel(r, chips))
